@@ -53,6 +53,7 @@ class Frame(object):
         self.fn = fn
         self.vars = {}      # decl id -> int | Ptr | None
         self.bind = {}      # decl id of a struct-pointer parameter -> object name
+        self.tainted = set()  # decl ids of locals computed from a length cell
 
 
 def wrap(v, t, dt=None):
@@ -84,6 +85,7 @@ class LayoutInterp(object):
         self.sink_calls = 0
         self.steps = 0
         self.notes = []
+        self.length_cells = ()   # scalar path prefixes that hold the message length (taint sources)
         self.byname = {}
         for f in prog.funcs.values():
             self.byname.setdefault(f.name, []).append(f)
@@ -152,6 +154,20 @@ class LayoutInterp(object):
             return ('byte', p, e)
         raise Unknown()
 
+    def tainted(self, e, fr):
+        """does the value of e depend on a length cell (syntactically, through tainted locals)?"""
+        if e is None or not self.length_cells:
+            return False
+        from ..ir import walk
+        for n in walk(e):
+            if n.k == 'var' and n.decl in fr.tainted:
+                return True
+            if n.k == 'mem':
+                p = self.obj_path(n, fr)
+                if p is not None and any(p == c or p.startswith(c + '[') or p.startswith(c + '.') for c in self.length_cells):
+                    return True
+        return False
+
     def read_lv(self, lv, fr):
         kind = lv[0]
         if kind == 'var':
@@ -169,10 +185,14 @@ class LayoutInterp(object):
         kind = lv[0]
         if kind == 'var':
             fr.vars[lv[1]] = wrap(v, lv[2].t, lv[2].dt)
+            if rhs is not None:
+                (fr.tainted.add if self.tainted(rhs, fr) else fr.tainted.discard)(lv[1])
         elif kind == 'scalar':
             self.scalars[lv[1]] = wrap(v, lv[2].t, lv[2].dt)
         elif kind == 'byte':
-            if v is not None and not isinstance(v, Ptr):
+            if rhs is not None and self.tainted(rhs, fr):
+                self.store_tag(lv[1], ('V', show(rhs)[:40]))
+            elif v is not None and not isinstance(v, Ptr):
                 self.store_tag(lv[1], ('C', v & 0xff))
             else:
                 self.store_tag(lv[1], ('V', show(rhs)[:40] if rhs is not None else '?'))
@@ -526,6 +546,8 @@ class LayoutInterp(object):
                     self.regions['local:%s@%s' % (s.var.op, fr.fn.name)] = reg
             if s.var is not None and not s.static:
                 if s.e is not None and s.e.k != 'init':
+                    if self.tainted(s.e, fr):
+                        fr.tainted.add(s.var.decl)
                     fr.vars[s.var.decl] = wrap(self.ev(s.e, fr), s.var.t, s.var.dt) \
                         if not self.is_array(s.var) else None
                     if self.is_array(s.var):
@@ -597,3 +619,8 @@ def check_padding(stream, r, block, lenfield):
     if not all(tg[0] in ('V',) or (tg[0] == 'C') for tg in tail[-4:]):
         return False, 'the last four bytes of the length field are not written'
     return True, 'M^%d 80 00^%d L^%d' % (r, total - lenfield - r - 1, lenfield)
+
+
+def length_bytes(stream, lenfield):
+    """number of bytes of the length field that are computed from the length counters"""
+    return len([tg for tg in stream[len(stream) - lenfield:] if tg is not None and tg[0] == 'V'])
